@@ -349,6 +349,7 @@ def write_evidence(ctx, violations):
             'axioms_per_theorem': pr['axioms'],
             'proof_problems': pr['problems'],
             'translators': ctx.translators,
+            'changed_sources': getattr(ctx, 'changed_sources', []),
             'evaluations': st['evaluations'],
             'distinct_nontrivial': len(st['nontrivial']),
             'rule': cfg.get('rule', ''),
@@ -420,8 +421,16 @@ def main():
 
     # -- dynamic ---------------------------------------------------------------------------
     lines = []
+    # change-aware depth: when the Rust sources the model mirrors differ from the recorded fingerprints, search deeper
+    # (no alarm by itself - see tools/fingerprint.py)
+    import fingerprint as FP
+    ctx.changed_sources = FP.changed(a.prop)
+    base_scale = 1.0
+    if ctx.changed_sources:
+        base_scale = float(os.environ.get('VERIF_CHANGED_SCALE', 6 if a.tier == 'quick' else 2))
+        ctx.say(f'[{a.prop}] modelled sources changed since the model was validated ({", ".join(ctx.changed_sources)}): searching {base_scale:g}x deeper')
     try:
-        fails = dynamic_stage(ctx, seed)
+        fails = dynamic_stage(ctx, seed, scale=base_scale)
     except Exception as e:  # the machinery itself broke: the property is no longer shown to hold
         rp = write_replay(ctx, 'machinery', {'property': a.prop, 'broken': 'dynamic stage could not run', 'error': str(e)[-4000:]})
         finish(ctx, [f'VIOLATION property={a.prop} replay={rp} no-failing-input-found'])
